@@ -190,7 +190,7 @@ fn candidates(x: &Rows, rows: &[usize], msl: usize) -> Vec<(usize, Vec<usize>, V
     out
 }
 
-fn check_tree(case: &TreeCase, ctx: &mut Ctx) -> Result<(), Fail> {
+pub fn check_tree(case: &TreeCase, ctx: &mut Ctx) -> Result<(), Fail> {
     let n = case.x.len();
     let p = case.x[0].len();
     let tag = if case.classifier { "tree_classifier" } else { "tree_regressor" };
